@@ -461,7 +461,8 @@ func (pf *ParamsFamily) errMentions(e *FuncEnc, err string, p RefParam) string {
 		}
 	}
 	// fmt.Errorf("... 'name' ...") : the format literal is remembered by the library model
-	for lit, sym := range e.ErrFormats {
+	for _, lit := range sortedKeys(e.ErrFormats) {
+		sym := e.ErrFormats[lit]
 		if strings.Contains(lit, "'"+p.Name+"'") || strings.Contains(lit, "\""+p.Name+"\"") || strings.Contains(lit, " "+p.Name+" ") {
 			alts = append(alts, eq(sx("errfmt", err), sym))
 		}
@@ -780,7 +781,7 @@ func (pf *ParamsFamily) loopInvariants(e *FuncEnc, fn *ssa.Function, op *RefOp, 
 	}
 	var src, dst ssa.Value
 	var parseCall *ssa.Call
-	for b := range li.body {
+	for _, b := range li.blocks() {
 		for _, in := range b.Instrs {
 			switch x := in.(type) {
 			case *ssa.IndexAddr:
